@@ -102,4 +102,152 @@ theorem mul (E : Env) : Lanewise2 64 (xlanes 8) (uintSpec 8).mul (fun _ => True)
 
 end Avx512_u8
 
+/-! ## 2. `fmadd` -/
+
+namespace Avx512_u64
+/-- AVX-512 `u64` multiply (delegates to the `i64` `mullox`): lane-wise the wrapping product -/
+theorem mul (E : Env) : Lanewise2 8 (xlanes 64) (uintSpec 64).mul (fun _ => True) (Avx512_u64.inst E).mul (Avx512_u64.inst E).mul_dense :=
+  lanewise2_of_map2 (by decide) (by decide) (by decide) _ _ (fun _ _ => rfl) _ rfl
+end Avx512_u64
+
+/-! ### unfused: `mul` then `add` (every AVX2 type; the AVX-512 integers) -/
+
+namespace Avx2_f32
+/-- `Avx2_f32.fmadd` / `fmadd_dense` = `mul` then `add`: lane-wise `acc + x*y` with two roundings / wrapping -/
+theorem fmadd (E : Env) : Lanewise3 8 (xlanes 32) (fun x y acc => (f32Spec E false).add ((f32Spec E false).mul x y) acc)
+    (Avx2_f32.inst E).fmadd (Avx2_f32.inst E).fmadd_dense :=
+  lanewise3_of_mul_add (C13X86.Avx2_f32.mul E) (C13X86.Avx2_f32.add E) (fun _ _ _ => rfl) (fun _ _ _ => rfl)
+end Avx2_f32
+
+namespace Avx2_f64
+/-- `Avx2_f64.fmadd` / `fmadd_dense` = `mul` then `add`: lane-wise `acc + x*y` with two roundings / wrapping -/
+theorem fmadd (E : Env) : Lanewise3 4 (xlanes 64) (fun x y acc => (f64Spec E false).add ((f64Spec E false).mul x y) acc)
+    (Avx2_f64.inst E).fmadd (Avx2_f64.inst E).fmadd_dense :=
+  lanewise3_of_mul_add (C13X86.Avx2_f64.mul E) (C13X86.Avx2_f64.add E) (fun _ _ _ => rfl) (fun _ _ _ => rfl)
+end Avx2_f64
+
+namespace Avx2_i8
+/-- `Avx2_i8.fmadd` / `fmadd_dense` = `mul` then `add`: lane-wise `acc + x*y` with two roundings / wrapping -/
+theorem fmadd (E : Env) : Lanewise3 32 (xlanes 8) (fun x y acc => (sintSpec 8).add ((sintSpec 8).mul x y) acc)
+    (Avx2_i8.inst E).fmadd (Avx2_i8.inst E).fmadd_dense :=
+  lanewise3_of_mul_add (Avx2_i8.mul E) (C13X86.Avx2_i8.add E) (fun _ _ _ => rfl) (fun _ _ _ => rfl)
+end Avx2_i8
+
+namespace Avx2_i16
+/-- `Avx2_i16.fmadd` / `fmadd_dense` = `mul` then `add`: lane-wise `acc + x*y` with two roundings / wrapping -/
+theorem fmadd (E : Env) : Lanewise3 16 (xlanes 16) (fun x y acc => (sintSpec 16).add ((sintSpec 16).mul x y) acc)
+    (Avx2_i16.inst E).fmadd (Avx2_i16.inst E).fmadd_dense :=
+  lanewise3_of_mul_add (C13X86.Avx2_i16.mul E) (C13X86.Avx2_i16.add E) (fun _ _ _ => rfl) (fun _ _ _ => rfl)
+end Avx2_i16
+
+namespace Avx2_i32
+/-- `Avx2_i32.fmadd` / `fmadd_dense` = `mul` then `add`: lane-wise `acc + x*y` with two roundings / wrapping -/
+theorem fmadd (E : Env) : Lanewise3 8 (xlanes 32) (fun x y acc => (sintSpec 32).add ((sintSpec 32).mul x y) acc)
+    (Avx2_i32.inst E).fmadd (Avx2_i32.inst E).fmadd_dense :=
+  lanewise3_of_mul_add (C13X86.Avx2_i32.mul E) (C13X86.Avx2_i32.add E) (fun _ _ _ => rfl) (fun _ _ _ => rfl)
+end Avx2_i32
+
+namespace Avx2_u8
+/-- `Avx2_u8.fmadd` / `fmadd_dense` = `mul` then `add`: lane-wise `acc + x*y` with two roundings / wrapping -/
+theorem fmadd (E : Env) : Lanewise3 32 (xlanes 8) (fun x y acc => (uintSpec 8).add ((uintSpec 8).mul x y) acc)
+    (Avx2_u8.inst E).fmadd (Avx2_u8.inst E).fmadd_dense :=
+  lanewise3_of_mul_add (Avx2_u8.mul E) (C13X86.Avx2_u8.add E) (fun _ _ _ => rfl) (fun _ _ _ => rfl)
+end Avx2_u8
+
+namespace Avx2_u16
+/-- `Avx2_u16.fmadd` / `fmadd_dense` = `mul` then `add`: lane-wise `acc + x*y` with two roundings / wrapping -/
+theorem fmadd (E : Env) : Lanewise3 16 (xlanes 16) (fun x y acc => (uintSpec 16).add ((uintSpec 16).mul x y) acc)
+    (Avx2_u16.inst E).fmadd (Avx2_u16.inst E).fmadd_dense :=
+  lanewise3_of_mul_add (C13X86.Avx2_u16.mul E) (C13X86.Avx2_u16.add E) (fun _ _ _ => rfl) (fun _ _ _ => rfl)
+end Avx2_u16
+
+namespace Avx2_u32
+/-- `Avx2_u32.fmadd` / `fmadd_dense` = `mul` then `add`: lane-wise `acc + x*y` with two roundings / wrapping -/
+theorem fmadd (E : Env) : Lanewise3 8 (xlanes 32) (fun x y acc => (uintSpec 32).add ((uintSpec 32).mul x y) acc)
+    (Avx2_u32.inst E).fmadd (Avx2_u32.inst E).fmadd_dense :=
+  lanewise3_of_mul_add (C13X86.Avx2_u32.mul E) (C13X86.Avx2_u32.add E) (fun _ _ _ => rfl) (fun _ _ _ => rfl)
+end Avx2_u32
+
+namespace Avx512_i8
+/-- `Avx512_i8.fmadd` / `fmadd_dense` = `mul` then `add`: lane-wise `acc + x*y` with two roundings / wrapping -/
+theorem fmadd (E : Env) : Lanewise3 64 (xlanes 8) (fun x y acc => (sintSpec 8).add ((sintSpec 8).mul x y) acc)
+    (Avx512_i8.inst E).fmadd (Avx512_i8.inst E).fmadd_dense :=
+  lanewise3_of_mul_add (Avx512_i8.mul E) (C13X86.Avx512_i8.add E) (fun _ _ _ => rfl) (fun _ _ _ => rfl)
+end Avx512_i8
+
+namespace Avx512_i16
+/-- `Avx512_i16.fmadd` / `fmadd_dense` = `mul` then `add`: lane-wise `acc + x*y` with two roundings / wrapping -/
+theorem fmadd (E : Env) : Lanewise3 32 (xlanes 16) (fun x y acc => (sintSpec 16).add ((sintSpec 16).mul x y) acc)
+    (Avx512_i16.inst E).fmadd (Avx512_i16.inst E).fmadd_dense :=
+  lanewise3_of_mul_add (C13X86.Avx512_i16.mul E) (C13X86.Avx512_i16.add E) (fun _ _ _ => rfl) (fun _ _ _ => rfl)
+end Avx512_i16
+
+namespace Avx512_i32
+/-- `Avx512_i32.fmadd` / `fmadd_dense` = `mul` then `add`: lane-wise `acc + x*y` with two roundings / wrapping -/
+theorem fmadd (E : Env) : Lanewise3 16 (xlanes 32) (fun x y acc => (sintSpec 32).add ((sintSpec 32).mul x y) acc)
+    (Avx512_i32.inst E).fmadd (Avx512_i32.inst E).fmadd_dense :=
+  lanewise3_of_mul_add (C13X86.Avx512_i32.mul E) (C13X86.Avx512_i32.add E) (fun _ _ _ => rfl) (fun _ _ _ => rfl)
+end Avx512_i32
+
+namespace Avx512_i64
+/-- `Avx512_i64.fmadd` / `fmadd_dense` = `mul` then `add`: lane-wise `acc + x*y` with two roundings / wrapping -/
+theorem fmadd (E : Env) : Lanewise3 8 (xlanes 64) (fun x y acc => (sintSpec 64).add ((sintSpec 64).mul x y) acc)
+    (Avx512_i64.inst E).fmadd (Avx512_i64.inst E).fmadd_dense :=
+  lanewise3_of_mul_add (C13X86.Avx512_i64.mul E) (C13X86.Avx512_i64.add E) (fun _ _ _ => rfl) (fun _ _ _ => rfl)
+end Avx512_i64
+
+namespace Avx512_u8
+/-- `Avx512_u8.fmadd` / `fmadd_dense` = `mul` then `add`: lane-wise `acc + x*y` with two roundings / wrapping -/
+theorem fmadd (E : Env) : Lanewise3 64 (xlanes 8) (fun x y acc => (uintSpec 8).add ((uintSpec 8).mul x y) acc)
+    (Avx512_u8.inst E).fmadd (Avx512_u8.inst E).fmadd_dense :=
+  lanewise3_of_mul_add (Avx512_u8.mul E) (C13X86.Avx512_u8.add E) (fun _ _ _ => rfl) (fun _ _ _ => rfl)
+end Avx512_u8
+
+namespace Avx512_u16
+/-- `Avx512_u16.fmadd` / `fmadd_dense` = `mul` then `add`: lane-wise `acc + x*y` with two roundings / wrapping -/
+theorem fmadd (E : Env) : Lanewise3 32 (xlanes 16) (fun x y acc => (uintSpec 16).add ((uintSpec 16).mul x y) acc)
+    (Avx512_u16.inst E).fmadd (Avx512_u16.inst E).fmadd_dense :=
+  lanewise3_of_mul_add (C13X86.Avx512_u16.mul E) (C13X86.Avx512_u16.add E) (fun _ _ _ => rfl) (fun _ _ _ => rfl)
+end Avx512_u16
+
+namespace Avx512_u32
+/-- `Avx512_u32.fmadd` / `fmadd_dense` = `mul` then `add`: lane-wise `acc + x*y` with two roundings / wrapping -/
+theorem fmadd (E : Env) : Lanewise3 16 (xlanes 32) (fun x y acc => (uintSpec 32).add ((uintSpec 32).mul x y) acc)
+    (Avx512_u32.inst E).fmadd (Avx512_u32.inst E).fmadd_dense :=
+  lanewise3_of_mul_add (C13X86.Avx512_u32.mul E) (C13X86.Avx512_u32.add E) (fun _ _ _ => rfl) (fun _ _ _ => rfl)
+end Avx512_u32
+
+namespace Avx512_u64
+/-- `Avx512_u64.fmadd` / `fmadd_dense` = `mul` then `add`: lane-wise `acc + x*y` with two roundings / wrapping -/
+theorem fmadd (E : Env) : Lanewise3 8 (xlanes 64) (fun x y acc => (uintSpec 64).add ((uintSpec 64).mul x y) acc)
+    (Avx512_u64.inst E).fmadd (Avx512_u64.inst E).fmadd_dense :=
+  lanewise3_of_mul_add (Avx512_u64.mul E) (C13X86.Avx512_u64.add E) (fun _ _ _ => rfl) (fun _ _ _ => rfl)
+end Avx512_u64
+
+/-! ### fused: one `fmadd` intrinsic, default dense form -/
+
+namespace Avx2Fma_f32
+/-- `Avx2Fma_f32.fmadd`: the fused `E.F.fma32 x y acc` (one rounding) in every lane, single and dense form -/
+theorem fmadd (E : Env) : Lanewise3 8 (xlanes 32) E.F.fma32 (Avx2Fma_f32.inst E).fmadd (Avx2Fma_f32.inst E).fmadd_dense :=
+  lanewise3_of_map3 (by decide) (by decide) (by decide) _ _ (fun _ _ _ => rfl) _ rfl
+end Avx2Fma_f32
+
+namespace Avx2Fma_f64
+/-- `Avx2Fma_f64.fmadd`: the fused `E.F.fma64 x y acc` (one rounding) in every lane, single and dense form -/
+theorem fmadd (E : Env) : Lanewise3 4 (xlanes 64) E.F.fma64 (Avx2Fma_f64.inst E).fmadd (Avx2Fma_f64.inst E).fmadd_dense :=
+  lanewise3_of_map3 (by decide) (by decide) (by decide) _ _ (fun _ _ _ => rfl) _ rfl
+end Avx2Fma_f64
+
+namespace Avx512_f32
+/-- `Avx512_f32.fmadd`: the fused `E.F.fma32 x y acc` (one rounding) in every lane, single and dense form -/
+theorem fmadd (E : Env) : Lanewise3 16 (xlanes 32) E.F.fma32 (Avx512_f32.inst E).fmadd (Avx512_f32.inst E).fmadd_dense :=
+  lanewise3_of_map3 (by decide) (by decide) (by decide) _ _ (fun _ _ _ => rfl) _ rfl
+end Avx512_f32
+
+namespace Avx512_f64
+/-- `Avx512_f64.fmadd`: the fused `E.F.fma64 x y acc` (one rounding) in every lane, single and dense form -/
+theorem fmadd (E : Env) : Lanewise3 8 (xlanes 64) E.F.fma64 (Avx512_f64.inst E).fmadd (Avx512_f64.inst E).fmadd_dense :=
+  lanewise3_of_map3 (by decide) (by decide) (by decide) _ _ (fun _ _ _ => rfl) _ rfl
+end Avx512_f64
+
 end Cfavml.Thm.C13X86Hard
